@@ -124,6 +124,30 @@ def wl_likelihood(perm_orders=False, only_long=False):
                 res[(NW, K, T, ln)] = np.array(likelihood.all_points_all_clusters_log_likelihood(m, Xl))
             except Exception:
                 res[(NW, K, T, ln)] = np.full((T, K), np.nan)
+        if T in (5, 17) and not only_long:
+            # stacked data of other real dtypes (values exact in every one of them): a mode-specific code path
+            # may not compute in, or return, a narrower type
+            Xq = np.round(X * 4)
+            for (dn, Xd) in (("int64", Xq.astype(np.int64)), ("int32", Xq.astype(np.int32)),
+                             ("float32", (Xq / 4).astype(np.float32))):
+                m = make_model(thetas, means, W, K)
+                try:
+                    t = likelihood.all_points_all_clusters_log_likelihood(m, Xd)
+                    res[("dtype", NW, K, T, dn)] = (str(np.asarray(t).dtype), np.array(t, dtype=np.float64))
+                except Exception as e:
+                    res[("dtype", NW, K, T, dn)] = ("raise:" + type(e).__name__, None)
+            # finite inputs whose log-density is not finite: a row so large that the quadratic form overflows,
+            # a precision matrix with determinant 0 - every mode must answer alike
+            for (en, Xe, ths) in (("huge_row", np.where(np.arange(T)[:, None] == 1, 1e200, X), thetas),
+                                  ("dblmax_row", np.where(np.arange(T)[:, None] == T - 1, 8e307, X), thetas),
+                                  ("singular", X, [th * 0.0 for th in thetas])):
+                m = make_model(ths, means, W, K)
+                with np.errstate(all="ignore"):
+                    try:
+                        t = likelihood.all_points_all_clusters_log_likelihood(m, np.ascontiguousarray(Xe))
+                        res[("extreme", NW, K, T, en)] = ("ok", np.array(t, dtype=np.float64))
+                    except Exception as e:
+                        res[("extreme", NW, K, T, en)] = ("raise:" + type(e).__name__, None)
         if perm_orders:
             # the parallel loop must not depend on iteration order (no loop-carried state)
             base = res[(NW, K, T, "C")]
@@ -173,6 +197,14 @@ def wl_runs(tier):
         dv = ml.Driver("k2a_" + name, [np.asarray(arr, dtype=np.float64)], W=d.W, K=d.K, beta=d.beta, m=d.m)
         dv.series = [arr]          # hand the front end the array in its original dtype / order
         rec = ml.real_run(dv, init, 6, (), entry="front")
+        res[("dtype", name)] = ("raise", type(rec.error).__name__) if rec.error is not None else \
+            ("ok", [int(x) for x in rec.result.point_labels], float(rec.result.label_assignment_cost))
+    # the main loop handed stacked data of another real dtype directly (the front ends always stack into float64)
+    Xq = np.round(d.X * 4)
+    for name, arr in {"stacked_float64": Xq, "stacked_int64": Xq.astype(np.int64), "stacked_float32": Xq.astype(np.float32)}.items():
+        dv = ml.Driver("k2a_" + name, d.series, W=d.W, K=d.K, beta=d.beta, m=d.m)
+        dv.X = arr
+        rec = ml.real_run(dv, init, 6, (), entry="fit")
         res[("dtype", name)] = ("raise", type(rec.error).__name__) if rec.error is not None else \
             ("ok", [int(x) for x in rec.result.point_labels], float(rec.result.label_assignment_cost))
     return res
@@ -279,6 +311,65 @@ def run(ctx):
                 ctx.violation({"kind": "lik", "NW": NW, "K": K, "T": T, "who": list(who)},
                               f"likelihood table ({who[0]}, {who[1]} layout) for NW={NW} K={K} T={T} differs from "
                               f"the Gaussian log-density by {float(np.max(np.abs(t - want) / scale)):.3g} x scale")
+        # other dtypes / non-finite outcomes: same outcome in every mode and thread count
+        if T in (5, 17):
+            Xq = np.round(X * 4)
+            wantq = np.empty((T, K))
+            scaleq = np.empty((T, K))
+            for k in range(K):
+                for i in range(T):
+                    wantq[i, k], scaleq[i, k] = refs.gaussian_logpdf_precision(Xq[i], means[k], thetas[k])
+            sources = [(mode, outs[mode]["lik"]) for mode in MODES] + \
+                      [(f"jit/{n}threads", tl) for n, tl in ref.get("threads", {}).items()]
+            for dn in ("int64", "int32", "float32"):
+                key = ("dtype", NW, K, T, dn)
+                for who, src in sources:
+                    ev += 1
+                    nontrivial += 1
+                    (tag, t) = src[key]
+                    wq = wantq if dn != "float32" else None
+                    if dn == "float32" and who == sources[0][0]:
+                        pass
+                    if tag != "float64":
+                        ctx.violation({"kind": "lik_dtype", "NW": NW, "K": K, "T": T, "dtype": dn, "who": who},
+                                      f"likelihood table for {dn} stacked data in mode {who}: {tag} "
+                                      f"(NW={NW} K={K} T={T}); float64 data gives a float64 table in every mode")
+                        continue
+                    if dn == "float32":
+                        # the float32 data are Xq/4: compare against that
+                        wq = np.empty((T, K))
+                        sq = np.empty((T, K))
+                        for k in range(K):
+                            for i in range(T):
+                                wq[i, k], sq[i, k] = refs.gaussian_logpdf_precision(Xq[i] / 4, means[k], thetas[k])
+                    else:
+                        sq = scaleq
+                    if t.shape != wq.shape or not np.all(np.abs(t - wq) <= 1e-10 * sq):
+                        ctx.violation({"kind": "lik_dtype", "NW": NW, "K": K, "T": T, "dtype": dn, "who": who},
+                                      f"likelihood table for {dn} stacked data in mode {who} differs from the Gaussian "
+                                      f"log-density by {float(np.max(np.abs(t - wq) / sq)):.3g} x scale (NW={NW} K={K} T={T})")
+            for en in ("huge_row", "dblmax_row", "singular"):
+                key = ("extreme", NW, K, T, en)
+                (tag0, t0) = sources[0][1][key]
+                for who, src in sources[1:]:
+                    ev += 1
+                    nontrivial += 1
+                    (tag, t) = src[key]
+                    same = tag == tag0 and (t is None or (
+                        t.shape == t0.shape and np.array_equal(np.isnan(t), np.isnan(t0))
+                        and np.array_equal(np.isposinf(t), np.isposinf(t0)) and np.array_equal(np.isneginf(t), np.isneginf(t0))
+                        and np.all(np.abs(np.where(np.isfinite(t), t, 0.0) - np.where(np.isfinite(t0), t0, 0.0))
+                                   <= 1e-9 * (1.0 + np.abs(np.where(np.isfinite(t0), t0, 0.0))))))
+                    if not same:
+                        where = ""
+                        if t is not None and t0 is not None and t.shape == t0.shape:
+                            neq = ~((t == t0) | (np.isnan(t) & np.isnan(t0)))
+                            if neq.any():
+                                (pi, ki) = np.argwhere(neq)[0]
+                                where = f" at point {pi}, cluster {ki}: {t0[pi, ki]!r} vs {t[pi, ki]!r}"
+                        ctx.violation({"kind": "lik_extreme", "NW": NW, "K": K, "T": T, "input": en, "who": who},
+                                      f"likelihood table for the '{en}' input (finite data, non-finite log-density): "
+                                      f"{sources[0][0]} gives {tag0}, {who} gives {tag}{where} (NW={NW} K={K} T={T})")
         # thread-count independence: bitwise among jit runs of the same layout
         for ln in ("C", "F", "strided"):
             base = tables[("jit", ln)]
@@ -318,10 +409,11 @@ def run(ctx):
         "{0,1,3}^(T*K), T*K<=6 (thorough 8) x 12 betas (identical labels and cost) and over the real alphabet "
         "{0.1,0.7,-1.3,1e-9,1e9} for T*K<=4 (thorough <=6) x 3 betas (identical labels, cost within 1e-12) and over {0,1,nan} / {0,1,inf} for T*K<=4 (identical, NaN == NaN); (ii) "
         "likelihood table for NW in {1,2,6,40} (thorough +100) x K in {1,2,3} x T in {1,2,5,17} (+600 random rows and 601 sample-and-hold rows for two shapes, repeated 6 times free-running per thread count) x layouts {C, Fortran, strided view} "
+        "and, for T in {5,17}, int64/int32/float32 stacked data (float64 table within tolerance in every mode) and finite inputs with a non-finite log-density (a 1e200 row, an 8e307 row, a zero precision matrix: same outcome, same non-finite pattern in every mode), all "
         "in every mode and for numba thread counts {1,2,4,8,16}: within 1e-10 x scale of the Cholesky log-density, "
         "bitwise equal across thread counts; interpreted modes with the parallel loop's range replaced by every "
         "permutation (T<=5) / 3 structured orders: bitwise equal; (iii) complete scripted runs for every 4th "
-        "(thorough: every) initial labelling of driver k2a and float32/int64/Fortran inputs: same outcome and "
+        "(thorough: every) initial labelling of driver k2a, float32/int64/Fortran inputs to the front end and float64/int64/float32 stacked data handed to the main loop directly: same outcome and "
         "labels in all modes. evaluations = pairwise comparisons; non-trivial = comparisons involving a non-default "
         "mode/layout/order")
     ctx.assumptions.append("the interleaving of numba's worker threads inside the compiled loop is not controlled; "
